@@ -345,64 +345,70 @@ theorem unshared_fresh {I : Interp} {x : Var} {g : Guard} {tr pre : List Ev} {e 
     FreshUntilPublished x (I.creator x) tr pre e := by
   cases g <;> simp [unshared] at hu <;> exact h
 
-/-- one site execution, accepted by class c, gives the fact class c demands of the event -/
+/-- one execution of a site that is not of the "unshared" kind, accepted by class c, gives the fact
+    class c demands of the event -/
+theorem site_classAt_shared (I : Interp) (x : Var) (c : Class) (s : Site) (tr pre : List Ev) (e : Ev)
+    (hwf : WF pre) (hacc : c.accepts s = true) (hu : ¬ unshared s.guard = true)
+    (hs : SiteHolds I x s tr pre e) : ClassAt (instClass I x c) x tr pre e := by
+  obtain ⟨hwr, hg⟩ := hs
+  simp only [Class.accepts, hu, Bool.false_or] at hacc
+  cases c with
+  | immutable =>
+    have : s.write = false := by simpa using hacc
+    show e.isWrite = false
+    rw [← hwr]; exact this
+  | syncprim =>
+    have hgd : s.guard = .syncop := by simpa using hacc
+    rw [hgd] at hg; exact hg
+  | atomic =>
+    have hgd : s.guard = .atomic := by simpa using hacc
+    rw [hgd] at hg; exact hg
+  | mutex m =>
+    have hgd : s.guard = .mu m := by simpa using hacc
+    rw [hgd] at hg
+    exact holder_of_heldExcl hwf hg
+  | rwmutex m =>
+    show if e.isWrite then holder (I.lock x m) pre = some e.tid
+         else (holder (I.lock x m) pre = some e.tid ∨ e.tid ∈ readers (I.lock x m) pre)
+    simp only [Bool.or_eq_true, Bool.and_eq_true, beq_iff_eq, Bool.not_eq_true'] at hacc
+    rcases hacc with hgd | ⟨hnw, hgd⟩
+    · rw [hgd] at hg
+      have := holder_of_heldExcl hwf hg
+      split
+      · exact this
+      · exact Or.inl this
+    · rw [hgd] at hg
+      have hr := readers_of_heldRead hg
+      have : e.isWrite = false := by rw [← hwr]; exact hnw
+      simp [this, hr]
+  | once o =>
+    show onceSt (I.once x o) pre = .running e.tid ∨
+         (e.isWrite = false ∧ passed (I.once x o) e.tid pre = true)
+    simp only [Bool.or_eq_true, Bool.and_eq_true, beq_iff_eq, Bool.not_eq_true'] at hacc
+    rcases hacc with hgd | ⟨hnw, hgd⟩
+    · rw [hgd] at hg
+      exact Or.inl (onceSt_of_inOnceBody hwf hg)
+    · rw [hgd] at hg
+      exact Or.inr ⟨by rw [← hwr]; exact hnw, passed_of_returned hg⟩
+  | lockPublish m =>
+    simp only [Bool.or_eq_true, Bool.and_eq_true, beq_iff_eq, Bool.not_eq_true'] at hacc
+    rcases hacc with hgd | ⟨hnw, hgd | hgd⟩
+    · rw [hgd] at hg
+      exact Or.inl (holder_of_heldExcl hwf hg)
+    · rw [hgd] at hg
+      obtain ⟨g, p, h1, h2⟩ := hg
+      exact Or.inr ⟨by rw [← hwr]; exact hnw, Or.inr ⟨g, p, h1, h2⟩⟩
+    · rw [hgd] at hg
+      obtain ⟨g, h', _, h1, _, h2⟩ := hg
+      exact Or.inr ⟨by rw [← hwr]; exact hnw, Or.inl ⟨g, h1, h2⟩⟩
+
+/-- one site execution, accepted by class c: the access is made during the hand-over phase or satisfies c -/
 theorem site_classAt (I : Interp) (x : Var) (c : Class) (s : Site) (tr pre : List Ev) (e : Ev)
     (hwf : WF pre) (hacc : c.accepts s = true) (hs : SiteHolds I x s tr pre e) :
     FreshUntilPublished x (I.creator x) tr pre e ∨ ClassAt (instClass I x c) x tr pre e := by
-  obtain ⟨hwr, hg⟩ := hs
   by_cases hu : unshared s.guard = true
-  · exact Or.inl (unshared_fresh hu hg)
-  · right
-    simp only [Class.accepts, hu, Bool.false_or] at hacc
-    cases c with
-    | immutable =>
-      have : s.write = false := by simpa using hacc
-      show e.isWrite = false
-      rw [← hwr]; exact this
-    | syncprim =>
-      have hgd : s.guard = .syncop := by simpa using hacc
-      rw [hgd] at hg; exact hg
-    | atomic =>
-      have hgd : s.guard = .atomic := by simpa using hacc
-      rw [hgd] at hg; exact hg
-    | mutex m =>
-      have hgd : s.guard = .mu m := by simpa using hacc
-      rw [hgd] at hg
-      exact holder_of_heldExcl hwf hg
-    | rwmutex m =>
-      show if e.isWrite then holder (I.lock x m) pre = some e.tid
-           else (holder (I.lock x m) pre = some e.tid ∨ e.tid ∈ readers (I.lock x m) pre)
-      simp only [Bool.or_eq_true, Bool.and_eq_true, beq_iff_eq, Bool.not_eq_true'] at hacc
-      rcases hacc with hgd | ⟨hnw, hgd⟩
-      · rw [hgd] at hg
-        have := holder_of_heldExcl hwf hg
-        split
-        · exact this
-        · exact Or.inl this
-      · rw [hgd] at hg
-        have hr := readers_of_heldRead hg
-        have : e.isWrite = false := by rw [← hwr]; exact hnw
-        simp [this, hr]
-    | once o =>
-      show onceSt (I.once x o) pre = .running e.tid ∨
-           (e.isWrite = false ∧ passed (I.once x o) e.tid pre = true)
-      simp only [Bool.or_eq_true, Bool.and_eq_true, beq_iff_eq, Bool.not_eq_true'] at hacc
-      rcases hacc with hgd | ⟨hnw, hgd⟩
-      · rw [hgd] at hg
-        exact Or.inl (onceSt_of_inOnceBody hwf hg)
-      · rw [hgd] at hg
-        exact Or.inr ⟨by rw [← hwr]; exact hnw, passed_of_returned hg⟩
-    | lockPublish m =>
-      simp only [Bool.or_eq_true, Bool.and_eq_true, beq_iff_eq, Bool.not_eq_true'] at hacc
-      rcases hacc with hgd | ⟨hnw, hgd | hgd⟩
-      · rw [hgd] at hg
-        exact Or.inl (holder_of_heldExcl hwf hg)
-      · rw [hgd] at hg
-        obtain ⟨g, p, h1, h2⟩ := hg
-        exact Or.inr ⟨by rw [← hwr]; exact hnw, Or.inr ⟨g, p, h1, h2⟩⟩
-      · rw [hgd] at hg
-        obtain ⟨g, h', _, h1, _, h2⟩ := hg
-        exact Or.inr ⟨by rw [← hwr]; exact hnw, Or.inl ⟨g, h1, h2⟩⟩
+  · exact Or.inl (unshared_fresh hu hs.2)
+  · exact Or.inr (site_classAt_shared I x c s tr pre e hwf hacc hu hs)
 
 /-- **generated_disciplined**: if all sites of x's field fit class c, every trace generated by the table
     follows c on x (outside the hand-over phase) -/
